@@ -495,3 +495,16 @@ def check_oracle_hypothesis(ctx, drv, items):
         if rep.get('ok') is not True:
             ctx.violation('hypothesis OracleOK of the round-trip theorem does not hold for a recorded difflib answer: %s' % json.dumps(rep)[:200],
                           dict(base, kind='hypothesis', theorem='Nbdime.C02_roundtrip_partial (OracleOK)', reply=rep), found=False, classify=False)
+
+
+def py_compat(a, b):
+    """Python rendering of the Lean relation `Compat` (hypothesis of the round-trip theorems): wherever the differ
+    compares with ==, == implies typed equality. Used only to count how many generated cases lie in the theorems' domain."""
+    if isinstance(a, list) and isinstance(b, list):
+        return all(py_compat(x, y) for x in a for y in b)
+    if isinstance(a, dict) and isinstance(b, dict):
+        return all(py_compat(v, b[k]) for k, v in a.items() if k in b)
+    try:
+        return not (a == b) or canon(a) == canon(b)
+    except Exception:
+        return False
